@@ -5,7 +5,7 @@ import math
 from ..astutil import dotted, effective, expand_expression_methods, method_call, stores
 from ..cfg import cfg_of, fact_key, norm, walk_own
 from ..consteval import Scope, fold, fold_in
-from ..flow import one_shot_rules
+from ..flow import one_shot_rules, straightline_paths
 from ..mutate import B, M
 from ..symexpr import canon
 
@@ -333,63 +333,6 @@ def check(ctx):
         rets = [s.value for s in walk_own(f.node) if isinstance(s, ast.Return)]
         ok = len(rets) == 1 and isinstance(rets[0], ast.Call) and norm(rets[0].func) == 'cls._scale_system' and [norm(a) for a in rets[0].args[:2]] == [f.params[1], f.params[2]]
         ctx.inst('R5', f, 'delegates', ok, 'scaling is done by _scale_system(bs_poses, cf_poses, ...) on the caller\'s poses')
-
-
-def straightline_paths(func, limit=64):
-    """[( ((test text, polarity), ..), returned text )] for a function made of plain bindings, ifs and returns only - every local
-    replaced by the expression it was bound to (calls included: the caller vouches that they are pure).  None for anything else."""
-    import copy as _copy
-    out = []
-
-    class Sub(ast.NodeTransformer):
-        def __init__(self, env):
-            self.env = env
-
-        def visit_Name(self, n):
-            if isinstance(n.ctx, ast.Load) and n.id in self.env:
-                return _copy.deepcopy(self.env[n.id])
-            return n
-
-    def sub(e, env):
-        return Sub(env).visit(_copy.deepcopy(e))
-
-    def run(stmts, env, conds):
-        # -> list of (env, conds) that fall through; appends finished paths to out; raises ValueError on unsupported code
-        live = [(env, conds)]
-        for st in stmts:
-            nxt = []
-            for env_, conds_ in live:
-                if isinstance(st, ast.Assign) and len(st.targets) == 1 and isinstance(st.targets[0], ast.Name):
-                    e2 = dict(env_)
-                    e2[st.targets[0].id] = sub(st.value, env_)
-                    nxt.append((e2, conds_))
-                elif isinstance(st, ast.AnnAssign) and isinstance(st.target, ast.Name) and st.value is not None:
-                    e2 = dict(env_)
-                    e2[st.target.id] = sub(st.value, env_)
-                    nxt.append((e2, conds_))
-                elif isinstance(st, ast.If):
-                    t = norm(sub(st.test, env_))
-                    nxt += run(st.body, dict(env_), conds_ + ((t, True),))
-                    nxt += run(st.orelse, dict(env_), conds_ + ((t, False),))
-                elif isinstance(st, ast.Return):
-                    out.append((conds_, norm(sub(st.value, env_)) if st.value is not None else None))
-                elif isinstance(st, ast.Expr) and isinstance(st.value, ast.Constant):
-                    nxt.append((env_, conds_))
-                elif isinstance(st, ast.Pass):
-                    nxt.append((env_, conds_))
-                else:
-                    raise ValueError(type(st).__name__)
-                if len(nxt) + len(out) > limit:
-                    raise ValueError('too many paths')
-            live = nxt
-        return live
-    try:
-        rest = run(func.node.body, {}, ())
-    except ValueError:
-        return None
-    for env_, conds_ in rest:
-        out.append((conds_, None))
-    return out
 
 
 VARIANTS = [
